@@ -443,10 +443,21 @@ func VerifC09_BatchCreateMatrix() {
 	api := vPick("api", 6)
 	withFn := vPick("initialiser", 2) == 1 && api%2 == 0 // NewBatch (odd) always copies a value
 	obsSet := vPick("observers", 4)                      // bit 0: OnCreateEntity, bit 1: OnAddRelations
+	// the destination table already holds a row (created before any observer is registered):
+	// events are for the NEW rows only
+	var warm Entity
+	switch api {
+	case 0, 1:
+		warm = NewMap[vChild](W.w).NewEntity(&vChild{}, t)
+	case 2, 3:
+		warm = NewMap1[vChild](W.w).NewEntity(&vChild{}, RelIdx(0, t))
+	default:
+		warm = NewMap2[vChild, vPos](W.w).NewEntity(&vChild{}, &vPos{}, RelIdx(0, t))
+	}
 	inits, unlockedCalls, badEntity := 0, 0, 0
 	var evCreate, evRel [vNE]int
 	isNew := func(e Entity) bool {
-		ok := W.w.Alive(e) && W.indexOf(e) < 0 && W.u.GetRelation(e, W.id[cR1]) == t
+		ok := W.w.Alive(e) && W.indexOf(e) < 0 && e != warm && W.u.GetRelation(e, W.id[cR1]) == t
 		return ok
 	}
 	seen := map[Entity]int{}
@@ -540,10 +551,44 @@ func VerifC09_BatchCreateMatrix() {
 	q := NewFilter1[vChild](W.w).Query(RelIdx(0, t))
 	created := 0
 	for q.Next() {
-		if W.indexOf(q.Entity()) < 0 {
+		if W.indexOf(q.Entity()) < 0 && q.Entity() != warm {
 			created++
 		}
 	}
 	vcheck("created-count", created == count && n0 == W.n)
+	vreach("end")
+}
+
+// the same creation paths on a LOCKED world: rejected without creating anything
+func VerifC07_LockedBatchCreateMatrix() {
+	vMode = 0
+	W := vShapeFor(1)
+	t := W.e[0].h
+	q := NewFilter1[vPos](W.w).Query()
+	vLocked = true
+	api := vPick("api", 8)
+	W.expectReject("locked/batch-create", func() {
+		switch api {
+		case 0:
+			NewMap[vChild](W.w).NewBatchFn(2, nil, t)
+		case 1:
+			NewMap[vChild](W.w).NewBatch(2, &vChild{}, t)
+		case 2:
+			NewMap1[vChild](W.w).NewBatchFn(2, nil, RelIdx(0, t))
+		case 3:
+			NewMap1[vChild](W.w).NewBatch(2, &vChild{}, RelIdx(0, t))
+		case 4:
+			NewMap2[vChild, vPos](W.w).NewBatchFn(2, nil, RelIdx(0, t))
+		case 5:
+			NewMap2[vChild, vPos](W.w).NewBatch(2, &vChild{}, &vPos{}, RelIdx(0, t))
+		case 6:
+			NewMap[vChild](W.w).NewEntity(&vChild{}, t)
+		case 7:
+			NewMap1[vPos](W.w).NewEntityFn(nil)
+		}
+	})
+	q.Close()
+	vLocked = false
+	W.checkAll("unlocked")
 	vreach("end")
 }
